@@ -42,6 +42,8 @@ Oracle  :
                trailing Mark must run within a bound computed from the corrected method; judged only when the
                corrected method consists of recognised benign, finite lines; a refused edit (MethodEditError) is the
                documented rejection path and only counted     unresponsive:corrected-method:<what>
+               for the first live edit of a run Method Status must be OK right after the edit is accepted and still when the
+               trailing Mark runs                              unresponsive:corrected-method:status-still-error:<exc>
 """
 from __future__ import annotations
 
@@ -258,6 +260,15 @@ def _epilogue_fix(c: D.Campaign, viol, info):
         viol("unresponsive:corrected-method:set_method-%s" % r, "set_method of the corrected method raised (%s): %r" % (r, [l[1] for l in new]))
         return
     info["fix:" + r] = 1
+    # the accepted live edit is the correction of the error: Method Status goes back to OK (first live edit of the run; the failing
+    # instruction was a method line, whatever exception type the engine used to report it)
+    cause = type(h.last_error).__name__ if h.last_error is not None else "?"
+    status_judged = r == "merge_method"
+    if status_judged and str(h.tagv("Method Status")) != "OK":
+        viol("unresponsive:corrected-method:status-still-error:%s" % cause,
+             "corrected method %r accepted (%s) but Method Status is %s (error was %s: %s)"
+             % ([l[1] for l in new], r, h.tagv("Method Status"), cause, str(h.last_error)[:120]))
+        status_judged = False
     if h.engine._runstate_holding:
         c.user("Unhold")
     if h.state == "Paused":
@@ -277,6 +288,12 @@ def _epilogue_fix(c: D.Campaign, viol, info):
             return
         if any(e[1] == "mark" and e[2] == "tail" for e in rec.events):
             info["fix:tail-ran"] = 1
+            if status_judged:
+                if rec.status != "OK":
+                    viol("unresponsive:corrected-method:status-not-ok-after-resume:%s" % cause,
+                         "corrected method %r accepted and resumed, the trailing Mark ran, but Method Status is %s" % ([l[1] for l in new], rec.status))
+                else:
+                    info["fix:status-ok"] = 1
             return
         errs = [e for e in rec.events if e[1] == "method_error"]
         if errs:
@@ -534,7 +551,7 @@ def shrink_hints(case):
 
 
 _CLASS_KEYS = ("k2-confirmed", "k2-confirmed-with-other-failed-lines", "k2-dropped", "raised", "errors", "error-with-stop", "error-with-unpause", "error-without-attributed-instruction", "error-in-injected-instruction", "failed-line-confirmed", "state-tags-simulated", "pause-held", "window-disturbed", "bad-reached", "bad-confirmed", "stop:ok",
-               "stop:already-stopped", "fix:tail-ran", "fix:edit-refused", "fix:merge_method", "fix:set_method", "fix:skip:not-in-error-pause",
+               "stop:already-stopped", "fix:tail-ran", "fix:status-ok", "fix:edit-refused", "fix:merge_method", "fix:set_method", "fix:skip:not-in-error-pause",
                "fix:skip:edited-or-injected", "fix:skip:no-failed-line", "method-state-raised")
 
 
